@@ -269,6 +269,73 @@ func UnfNorm2(rt ring.Type, a []*big.Int) float64 {
 }
 
 // ---------------------------------------------------------------------------------------------
+// CRT with the per-chain constants cached (ref.CRT recomputes a modular inverse per coefficient)
+
+type crtConsts struct {
+	Q *big.Int
+	c []*big.Int // c_i = (Q/q_i)·((Q/q_i)^-1 mod q_i): x = Σ res_i·c_i mod Q
+}
+
+var (
+	crtMu    sync.Mutex
+	crtCache = map[string]*crtConsts{}
+)
+
+func crtFor(moduli []uint64) *crtConsts {
+	key := fmt.Sprint(moduli)
+	crtMu.Lock()
+	defer crtMu.Unlock()
+	if c, ok := crtCache[key]; ok {
+		return c
+	}
+	cc := &crtConsts{Q: ref.Prod(moduli)}
+	for _, q := range moduli {
+		qi := new(big.Int).SetUint64(q)
+		Qi := new(big.Int).Quo(cc.Q, qi)
+		inv := new(big.Int).ModInverse(new(big.Int).Mod(Qi, qi), qi)
+		cc.c = append(cc.c, Qi.Mul(Qi, inv))
+	}
+	crtCache[key] = cc
+	return cc
+}
+
+// PolyCRT reconstructs all coefficients of an RNS polynomial rows[i][j] (residues, any uint64
+// representative) as integers in [0, Π moduli).
+func PolyCRT(rows [][]uint64, moduli []uint64) []*big.Int {
+	cc := crtFor(moduli)
+	n := len(rows[0])
+	out := make([]*big.Int, n)
+	t := new(big.Int)
+	for j := 0; j < n; j++ {
+		x := new(big.Int)
+		for i, q := range moduli {
+			t.SetUint64(rows[i][j] % q)
+			t.Mul(t, cc.c[i])
+			x.Add(x, t)
+		}
+		out[j] = x.Mod(x, cc.Q)
+	}
+	return out
+}
+
+// PolyCoeffs returns the coefficients of an RNS polynomial at `level` as integers in [0,Q_level),
+// taken out of the NTT / Montgomery domains as flagged. The input is not modified.
+func PolyCoeffs(rQ *ring.Ring, p ring.Poly, level int, isNTT, isMont bool) []*big.Int {
+	r := rQ.AtLevel(level)
+	t := r.NewPoly()
+	for i := 0; i <= level; i++ {
+		copy(t.Coeffs[i], p.Coeffs[i])
+	}
+	if isNTT {
+		r.INTT(t, t)
+	}
+	if isMont {
+		r.IMForm(t, t)
+	}
+	return PolyCRT(t.Coeffs[:level+1], r.ModuliChain()[:level+1])
+}
+
+// ---------------------------------------------------------------------------------------------
 // reading library objects into Z
 
 // Secret returns the secret as centred integer coefficients (uni.SecretCoeffs reads the q0 row; all
@@ -279,7 +346,7 @@ func Secret(params rlwe.Parameters, sk *rlwe.SecretKey) []*big.Int {
 
 // CoeffsQ returns the coefficients of p mod Q_level as centred integers, honouring the flags.
 func CoeffsQ(rQ *ring.Ring, p ring.Poly, level int, isNTT, isMont bool) []*big.Int {
-	c := uni.PolyCoeffs(rQ, p, level, isNTT, isMont)
+	c := PolyCoeffs(rQ, p, level, isNTT, isMont)
 	return CenterAll(c, ref.Prod(rQ.ModuliChain()[:level+1]))
 }
 
@@ -315,7 +382,7 @@ func CoeffsQP(rQP *ringqp.Ring, p ringqp.Poly, levelQ, levelP int, isNTT, isMont
 		rows = append(rows, tp.Coeffs[:levelP+1]...)
 		moduli = append(moduli, r.RingP.ModuliChain()[:levelP+1]...)
 	}
-	return ref.PolyCRT(rows, moduli), ref.Prod(moduli)
+	return PolyCRT(rows, moduli), ref.Prod(moduli)
 }
 
 // SetPoly writes the integer coefficients (any sign) into an RNS polynomial of rQ at `level`, then
@@ -350,7 +417,7 @@ func Phase(rt ring.Type, rQ *ring.Ring, el *rlwe.Element[ring.Poly], s []*big.In
 	}
 	spow[0].SetInt64(1)
 	for d := 0; d <= el.Degree(); d++ {
-		cd := uni.PolyCoeffs(rQ, el.Value[d], level, el.IsNTT, el.IsMontgomery)
+		cd := PolyCoeffs(rQ, el.Value[d], level, el.IsNTT, el.IsMontgomery)
 		term := Mul(rt, cd, spow)
 		for j := range acc {
 			acc[j].Add(acc[j], term[j])
